@@ -116,14 +116,14 @@ func startServer(t *testing.T, keyIdx int, opts ...wt.Option) *e2eServer {
 	return s
 }
 
-func newDialer(t *testing.T, keyIdx int) tpt.Transport {
+func newDialer(t *testing.T, keyIdx int, opts ...wt.Option) tpt.Transport {
 	t.Helper()
 	k := keys.Ed(7500 + keyIdx)
 	cm, err := quicreuse.NewConnManager(quic.StatelessResetKey{}, quic.TokenGeneratorKey{})
 	if err != nil {
 		t.Skipf("inconclusive: quicreuse: %v", err)
 	}
-	tr, err := wt.New(k.Priv, nil, cm, nil, nil)
+	tr, err := wt.New(k.Priv, nil, cm, nil, nil, opts...)
 	if err != nil {
 		cm.Close()
 		t.Fatalf("webtransport.New: %v", err)
